@@ -158,7 +158,8 @@ def default_L_task(theta, delta, K, tier):
             return
         # sufficiency half, *given the paper's Lemma B.12*: L_code ≥ 4 (c σ β / ε)² ln(4m / (2δ/(K(K−1)))) with σ² = noise_var
         c = Fraction(1 + math.sqrt(2))
-        beta = Fraction(float(order.ordering_cone.beta))
+        # ordering complexity of the 2-D θ-cone from its closed form (1/sin θ below 90°, 1 otherwise), not from the code under test
+        beta = Fraction(1 / math.sin(math.radians(theta)) if theta < 90 else 1.0)
         ln_arg = Fraction(math.log(4 * 2 / (2 * delta / (K * (K - 1))))) * (1 - Fraction(1, 10**12))
         paper = 4 * sym.rv(c * c * beta * beta * ln_arg) * v.e / (eps.e * eps.e)
         mdl = ctx.prove("default L ≥ the paper's bound 4(cσβ/ε)²·ln(·) with σ = √noise_var (sufficient by Lemma B.12)",
@@ -189,7 +190,8 @@ def replay(case):
         ds = A.DSStub(K, 2)
         with patched((mod, {"get_dataset_instance": lambda n: ds})):
             a = mod.NaiveElimination(eps, delta, "stub", order, v)
-        want = 4 * ((1 + math.sqrt(2)) * math.sqrt(v) * order.ordering_cone.beta / eps) ** 2 * math.log(4 * 2 / (2 * delta / (K * (K - 1))))
+        beta = 1 / math.sin(math.radians(theta)) if theta < 90 else 1.0
+        want = 4 * ((1 + math.sqrt(2)) * math.sqrt(v) * beta / eps) ** 2 * math.log(4 * 2 / (2 * delta / (K * (K - 1))))
         return {"reproduced": bool(int(a.L) < want * (1 - 1e-9)), "L": int(a.L),
                 "detail": f"NaiveElimination(ε={eps}, δ={delta}, noise_var={v}, θ={theta}, K={K}).L = {int(a.L)} < paper's bound {want:.3f}"}
     if case["kind"] == "default_L":
@@ -246,7 +248,7 @@ def tasks(tier, seed):
             continue
         ts.append({"id": f"naive_P[{cone}]", "fn": "means_task",
                    "args": {"cone": cone, "W": W.tolist(), "K": 3, "L": 2 if tier == "quick" else 3, "tier": tier}, "weight": 50})
-    for theta in ((60, 90, 120) if tier == "quick" else (30, 45, 60, 90, 120, 150)):
+    for theta in ((10, 30, 60, 90, 120) if tier == "quick" else (5, 10, 20, 30, 45, 60, 75, 90, 120, 150)):
         for delta in ((0.05,) if tier == "quick" else (0.01, 0.05, 0.2)):
             for K in ((2, 32) if tier == "quick" else (2, 8, 32, 500)):
                 ts.append({"id": f"default_L[θ={theta},δ={delta},K={K}]", "fn": "default_L_task",
